@@ -39,11 +39,12 @@ def gen_tree(rng, depth, scope, default_ns):
     scope = dict(scope)
     # declare / re-declare some prefixes here
     for p in rng.sample(["p", "q", "r", "xsi"], rng.randint(0, 2)):
-        u = URIS[p] if (p == "xsi" or rng.random() < 0.7) else rng.choice(["urn:alt1", "urn:alt2"])
+        # (a prefix may also name the namespace some element states as its default namespace)
+        u = URIS[p] if (p == "xsi" or rng.random() < 0.7) else rng.choice(["urn:alt1", "urn:alt2", "urn:d1"])
         s["nsp"].append([p, u])
         scope[p] = u
     if rng.random() < 0.25:
-        s["expns"] = rng.choice(["urn:d1", "urn:d2"])
+        s["expns"] = rng.choice(["urn:d1", "urn:d2", "urn:d1", URIS["p"], URIS["q"]])
     avail = [p for p in scope if p != "xsi"]
     if avail and rng.random() < 0.5:
         s["pfx"] = rng.choice(avail)
